@@ -158,6 +158,7 @@ class Evaluator:
         self.calls = 0
         self._const_stack = set()
         self._class_objects = {}
+        self.class_attrs = {}
 
     # -- entry points -----------------------------------------------------------------------
     def call(self, spec, args, self_obj=None, kwargs=None):
@@ -363,6 +364,10 @@ class Evaluator:
                 self._store(e, x, env, mod, cls)
         elif isinstance(t, ast.Attribute):
             o = self._expr(t.value, env, mod, cls)
+            if isinstance(o, ClassRef):
+                # class-level state (tables a classmethod fills in): kept per evaluator, seen by the class and by its instances
+                self.class_attrs[(self.repo.alias(o.mod), o.cls, t.attr)] = v
+                return
             if not isinstance(o, Obj):
                 raise Undecided("attribute store on %s" % type(o).__name__)
             o.attrs[t.attr] = v
@@ -621,6 +626,8 @@ class Evaluator:
                     return ("method", r[0], r[1], o)
                 # class attribute
                 for m2, c2 in (self.repo.mro(o.mod, o.cls) if o.mod != "builtins" else ()):
+                    if (m2, c2, e.attr) in self.class_attrs:
+                        return self.class_attrs[(m2, c2, e.attr)]
                     v = _class_const(self.repo, m2, c2, e.attr)
                     if v is not Unknown:
                         return v
@@ -630,6 +637,8 @@ class Evaluator:
                 if r:
                     return ("method", r[0], r[1], o)
                 for m2, c2 in self.repo.mro(o.mod, o.cls):
+                    if (m2, c2, e.attr) in self.class_attrs:
+                        return self.class_attrs[(m2, c2, e.attr)]
                     v = _class_const(self.repo, m2, c2, e.attr)
                     if v is not Unknown:
                         return v
